@@ -52,6 +52,7 @@ func genC06(ctx *fw.Ctx) []fw.Case {
 	}
 	cases = append(cases, fw.Case{ID: "api/address-space-edited-after-query", Run: c06AddrSpaceEdits})
 	cases = append(cases, fw.Case{ID: "text/aggregate-index-spellings", Run: c06IndexSpellings})
+	cases = append(cases, fw.Case{ID: "text/types-spelled-through-names", Run: c06NamedTypeSpellings})
 	cases = append(cases, fw.Case{ID: "api/results-reread-after-later-constructions", Run: c06BuildThenReread})
 	return cases
 }
@@ -869,4 +870,119 @@ func c06BuildThenReread(r *fw.Rec) {
 	}
 	r.NontrivialN("reread", len(all))
 	r.TallyN("reread", "results-checked-after-later-constructions", len(all))
+}
+
+// c06NamedTypeSpellings: operand and call-site types spelled through type names
+// (`%V = type <vscale x 2 x i64>`, `%W = type <4 x float>`, `%ft = type i32 (i8*, ...)`,
+// `%vt = type void (i32)`): the result types are those of the types the names
+// stand for. Every result is used at the type LLVM's rules give (stores into
+// typed slots), so llvm-as validates the expectations.
+func c06NamedTypeSpellings(r *fw.Rec) {
+	x := `%V = type <vscale x 2 x i64>
+%W = type <4 x float>
+%P = type i8*
+%ft = type i32 (i8*, ...)
+%vt = type void (i32)
+%gt = type %W (%W)
+declare i32 @printf(i8*, ...)
+declare void @sink(i32)
+declare %W @vec(%W)
+define void @f(%V %a, %V %b, %W %w, %P %p, %ft* %fp, <vscale x 2 x i1>* %s1, <vscale x 2 x i8*>* %s2, <vscale x 2 x i64>* %s3, <4 x i1>* %s4, <4 x float>* %s5, i32* %s6, float* %s7) {
+  %c1 = icmp ult %V %a, %b
+  store <vscale x 2 x i1> %c1, <vscale x 2 x i1>* %s1
+  %g1 = getelementptr i8, %P %p, %V %a
+  store <vscale x 2 x i8*> %g1, <vscale x 2 x i8*>* %s2
+  %a1 = add %V %a, %b
+  store <vscale x 2 x i64> %a1, <vscale x 2 x i64>* %s3
+  %sel = select <vscale x 2 x i1> %c1, %V %a, %V %b
+  store <vscale x 2 x i64> %sel, <vscale x 2 x i64>* %s3
+  %c2 = fcmp olt %W %w, %w
+  store <4 x i1> %c2, <4 x i1>* %s4
+  %sh = shufflevector %W %w, %W %w, <4 x i32> <i32 0, i32 5, i32 2, i32 7>
+  store <4 x float> %sh, <4 x float>* %s5
+  %e = extractelement %W %w, i32 1
+  store float %e, float* %s7
+  %k1 = call %ft @printf(%P %p, i32 1)
+  store i32 %k1, i32* %s6
+  %k2 = call %ft %fp(%P %p)
+  store i32 %k2, i32* %s6
+  call %vt @sink(i32 %k2)
+  %k3 = call %gt @vec(%W %w)
+  store <4 x float> %k3, <4 x float>* %s5
+  ret void
+}
+`
+	if ok, msg, err := llvmref.Accepts(x); err != nil || !ok {
+		r.Inconclusive("named-type module rejected by LLVM (monitor at fault): " + firstLine(lastDiag(msg)))
+		return
+	}
+	want := map[string]string{"c1": "<vscale x 2 x i1>", "g1": "<vscale x 2 x i8*>", "a1": "<vscale x 2 x i64>", "sel": "<vscale x 2 x i64>", "c2": "<4 x i1>", "sh": "<4 x float>", "e": "float", "k1": "i32", "k2": "i32", "k3": "<4 x float>"}
+	r.Eval(1)
+	m, perr, pmsg := parseGuard("c06-named-types", x)
+	if pmsg != "" || perr != nil {
+		what := pmsg
+		if perr != nil {
+			what = perr.Error()
+		}
+		r.Violate(fw.Violation{Key: "named-type-spelling/rejected", Input: x, What: "a module whose operand and call-site types are spelled through type names, with every result used at the type LLVM's rules give, is rejected: " + firstLine(what)})
+		return
+	}
+	resolved := func(t types.Type) string {
+		// the structure of the type, whatever it is called
+		return c06Structure(t)
+	}
+	voidCalls := 0
+	for _, inst := range m.Funcs[len(m.Funcs)-1].Blocks[0].Insts {
+		if call, ok := inst.(*ir.InstCall); ok && types.IsVoid(call.Type()) {
+			voidCalls++
+		}
+		n, ok := inst.(value.Named)
+		if !ok {
+			continue
+		}
+		w, judged := want[n.Name()]
+		if !judged {
+			continue
+		}
+		r.Eval(1)
+		got := resolved(n.Type())
+		rec := ""
+		if rt, had, _ := recomputeType(n); had && rt != nil {
+			rec = resolved(rt)
+		}
+		if got != w || (rec != "" && rec != w) {
+			r.Violate(fw.Violation{Key: "named-type-spelling/wrong-type/" + n.Name(), Input: x, What: fmt.Sprintf("%%%s: the parser reports %s (structure %s), recomputed from the operands %s; LLVM's rules (validated by llvm-as on this module) give %s", n.Name(), n.Type(), got, rec, w)})
+			return
+		}
+	}
+	if voidCalls != 1 {
+		r.Violate(fw.Violation{Key: "named-type-spelling/void-call", Input: x, What: fmt.Sprintf("the call through the named type `%%vt = type void (i32)` must be the one void call of the function; %d calls are void", voidCalls)})
+		return
+	}
+	r.NontrivialN("named-type-spellings", len(want))
+	r.TallyN("named_type_spellings", "results-checked", len(want))
+}
+
+// c06Structure spells a type by structure, looking through the names of
+// non-struct types.
+func c06Structure(t types.Type) string {
+	switch t := t.(type) {
+	case *types.IntType:
+		return fmt.Sprintf("i%d", t.BitSize)
+	case *types.FloatType:
+		return t.Kind.String()
+	case *types.PointerType:
+		if t.AddrSpace != 0 {
+			return fmt.Sprintf("%s addrspace(%d)*", c06Structure(t.ElemType), uint64(t.AddrSpace))
+		}
+		return c06Structure(t.ElemType) + "*"
+	case *types.VectorType:
+		if t.Scalable {
+			return fmt.Sprintf("<vscale x %d x %s>", t.Len, c06Structure(t.ElemType))
+		}
+		return fmt.Sprintf("<%d x %s>", t.Len, c06Structure(t.ElemType))
+	case *types.VoidType:
+		return "void"
+	}
+	return t.String()
 }
